@@ -229,6 +229,8 @@ def lay_out(draw, prog):
             a["g"] = [draw(RD.gaps(6)), draw(RD.gaps(1)), draw(RD.gaps(1)), draw(RD.gaps(2))]
             lay_value(a["value"])
     prog["nl"] = draw(st.sampled_from(["\n", "\n", "\n", "\r\n", "\r\n", "\r"]))
+    if draw(st.integers(0, 5)) == 0:
+        prog["nl_mix"] = draw(st.lists(st.sampled_from(["\n", "\r", "\r\n"]), min_size=2, max_size=5))
     prog["head"] = draw(RD.gaps(4))
     prog["tail"] = draw(RD.gaps(3))
     return prog
